@@ -68,7 +68,7 @@ class EReject(Engine):
                 for cls in CLASSES:
                     case += 1
                     descs.append({'seed': base_seed * 1_000_003 + case, 'case': case, 'mode': 'window', 'size': size, 'kind': kind, 'cls': cls})
-        runs = 6000 if tier == 'quick' else 600000
+        runs = 16000 if tier == 'quick' else 900000
         for i in range(runs):
             case += 1
             descs.append({'seed': base_seed * 1_000_003 + case, 'case': case, 'mode': 'write', 'n': 30 if tier == 'quick' else 50, 'avoid': i % 3 == 2})
@@ -136,7 +136,7 @@ class EReject(Engine):
             return self.queue.pop(0) if self.queue else None
         B = self.B
         how = g.pick(['prop', 'prop', 'prop_named', 'slice_int', 'slice_int', 'append_token', 'pack', 'build', 'ctor', 'arr_set', 'arr_append', 'arr_insert',
-                      'arr_extend', 'illegal_length', 'bad_digits', 'token_len_mismatch', 'ctor_strlen'])
+                      'arr_extend', 'illegal_length', 'bad_digits', 'token_len_mismatch', 'ctor_strlen', 'digits', 'digits', 'pack_kwlen'])
         tgt = g.pick(['ba', 'bs'])
         obj = self.ba if tgt == 'ba' else self.bs
         n = len(obj)
@@ -160,6 +160,23 @@ class EReject(Engine):
         elif how in ('arr_set', 'arr_append', 'arr_insert', 'arr_extend'):
             d = self.arr.dtype
             ev.update(v=boundary_values(g, d.name, d.bitlength), i=g.int(-2, 5), v2=boundary_values(g, d.name, d.bitlength))
+        elif how == 'digits':
+            # a digit string with (or without) one character that is not a digit of the base, through every route
+            name = g.pick(['hex', 'bin', 'oct'])
+            alphabet = {'hex': '0123456789abcdefABCDEF', 'bin': '01', 'oct': '01234567'}[name]
+            k = g.int(1, 6)
+            digs = [g.pick(alphabet) for _ in range(k)]
+            bad = g.chance(0.6)
+            if bad:
+                invalid = {'hex': ['g', 'G', 'z', 'h'], 'bin': ['2', '9', 'a'], 'oct': ['8', '9', 'a']}[name] + ['+', '-', '.', '/', ':', '\u0663', '\uff11', '\u00b2', '@']
+                digs.insert(g.int(0, len(digs)), g.pick(invalid))
+            ev.update(name=name, text=''.join(digs), bad=bad, route=g.pick(['ctor', 'prop', 'token', 'token_len', 'build', 'pack', 'array', 'append']), cls=g.pick(CLASSES))
+        elif how == 'pack_kwlen':
+            name = g.pick(['bits', 'hex', 'bin', 'oct', 'uint', 'int'])
+            per = {'hex': 4, 'bin': 1, 'oct': 3, 'bits': 1, 'uint': 1, 'int': 1}[name]
+            k = g.int(1, 5)
+            implied = per * k
+            ev.update(name=name, digits=k, n=g.pick([implied, implied, implied - per, implied + per, implied + 1, 0, -1, -implied]), dseed=g.int(0, 10 ** 6))
         elif how == 'ctor_strlen':
             name = g.pick(['hex', 'bin', 'oct', 'bits'])
             per = {'hex': 4, 'bin': 1, 'oct': 3, 'bits': 1}[name]
@@ -345,6 +362,70 @@ class EReject(Engine):
                 st, r = call(self.arr.extend, [v, v2])
             if expect is False:
                 self.probe('array_write_rejected')
+        elif how == 'digits':
+            name = ev.get('name') if ev.get('name') in ('hex', 'bin', 'oct') else 'hex'
+            per = {'hex': 4, 'bin': 1, 'oct': 3}[name]
+            text = str(ev.get('text', '0'))[:40]
+            alphabet = {'hex': '0123456789abcdefABCDEF', 'bin': '01', 'oct': '01234567'}[name]
+            valid = len(text) > 0 and all(ch in alphabet for ch in text)
+            if not valid and all((ch in alphabet) or ch in ' _\t\n' for ch in text):
+                return {'skip': 'whitespace / underscores are legal separators'}, []
+            if not valid and (any(p_ in text.lower() for p_ in ('0x', '0b', '0o')) or '=' in text or ',' in text or '*' in text or '(' in text):
+                # (the unedited suite pins '0x55' * 10 as a valid hex string: a prefix is dropped wherever it occurs)
+                return {'skip': 'prefix / token syntax characters: not a plain digit string'}, []
+            nbits = per * len(text)
+            C = getattr(B, ev.get('cls') if ev.get('cls') in CLASSES else 'Bits')
+            route = ev.get('route')
+            expect = valid
+            trig = f'digits:{name}:{route}'
+            if route == 'prop':
+                changed_key, want_len = tgt_name, nbits
+                st, r = call(setattr, tgt, name, text)
+            elif route == 'append':
+                changed_key, want_len = tgt_name, n + nbits
+                st, r = call(tgt.append, f'{name}={text}')
+            elif route == 'token':
+                st, r = call(C, f'{name}={text}')
+                new_obj, want_len = (r if st == 'ok' else None), nbits
+            elif route == 'token_len':
+                st, r = call(C, f'{name}:{nbits}={text}')
+                new_obj, want_len = (r if st == 'ok' else None), nbits
+            elif route == 'build':
+                st, r = call(lambda: B.Dtype(name, nbits).build(text))
+                new_obj, want_len = (r if st == 'ok' else None), nbits
+            elif route == 'pack':
+                st, r = call(B.pack, f'{name}:{nbits}', text)
+                new_obj, want_len = (r if st == 'ok' else None), nbits
+            elif route == 'array':
+                a_ = B.Array(f'{name}{nbits}') if nbits else None
+                if a_ is None:
+                    return {'skip': 'empty'}, []
+                st, r = call(a_.append, text)
+                if st == 'ok' and kernel.safe_bin(a_.data) and len(a_.data) != nbits:
+                    incs.append(self.inc(f'write|{trig}|accepted-with-wrong-length', event=ev))
+                if st != 'ok' and len(a_.data):
+                    incs.append(self.inc(f'write|{trig}|rejected-but-state-changed', event=ev))
+            else:
+                st, r = call(lambda: C(**{name: text}))
+                new_obj, want_len = (r if st == 'ok' else None), nbits
+        elif how == 'pack_kwlen':
+            # the length of a token given as a keyword must agree with the value exactly as a literal length must
+            name = ev.get('name') if ev.get('name') in ('bits', 'hex', 'bin', 'oct', 'uint', 'int') else 'bits'
+            per = {'hex': 4, 'bin': 1, 'oct': 3, 'bits': 1, 'uint': 1, 'int': 1}[name]
+            k = ev.get('digits', 1) if isinstance(ev.get('digits', 1), int) and 0 < ev.get('digits', 1) <= 16 else 1
+            nn = ev.get('n', 0) if isinstance(ev.get('n', 0), int) else 0
+            r_ = kernel.Gen(ev.get('dseed', 0) if isinstance(ev.get('dseed', 0), int) else 0)
+            if name in ('uint', 'int'):
+                val = 1
+                expect = nn >= (1 if name == 'uint' else 2)
+            else:
+                digs = ''.join(r_.pick({'hex': '0123456789abcdef', 'bin': '01', 'oct': '01234567', 'bits': '01'}[name]) for _ in range(k))
+                val = ('0b' + digs) if name == 'bits' else digs
+                expect = (nn == per * k)
+            want_len = nn
+            trig = f'pack-kwlen:{name}'
+            st, r = call(B.pack, f'{name}:n', val, n=nn)
+            new_obj = r if st == 'ok' else None
         elif how == 'ctor_strlen':
             # a length stated together with a value whose own length is different must be rejected (every route)
             name = ev.get('name') if ev.get('name') in ('hex', 'bin', 'oct', 'bits') else 'hex'
